@@ -177,3 +177,4 @@ func Threads() {}
 
 // SetClock pins the engine's clock stub; natively the real clock runs.
 func SetClock(sec, nsec, stepNs int64) {}
+func ClockYields(on bool)              {}
